@@ -281,7 +281,8 @@ static void op_simplex(void) {
   /* f(x) = (x-x*)' A (x-x*) + c,  A = Q diag(lambda) Q',  lambda geometric from 1 to kappa: strictly convex, f* = c at x* */
   double Qm[DMAX * DMAX], lam[DMAX]; vg_orth(1500 + fam * 8 + ki, d, Qm);
   for (int i = 0; i < d; i++) lam[i] = pow(KAP[ki], (double)i / (d - 1));
-  Q.d = d; Q.kind = kind; Q.c = 0.75 - fam; Q.evals = 0;
+  int neg = kind == 0 ? vx_choose("offset", 2) : 0;                       /* quadratics also with a large negative constant: objective negative on the whole simplex */
+  Q.d = d; Q.kind = kind; Q.c = neg ? -40.0 : 0.75 - fam; Q.evals = 0;
   for (int i = 0; i < d; i++) for (int j = i; j < d; j++) { ld s = 0; for (int t = 0; t < d; t++) s += (ld)Qm[i * d + t] * lam[t] * Qm[j * d + t]; Q.A[i * d + j] = Q.A[j * d + i] = (double)s; }
   for (int i = 0; i < d; i++) Q.xs[i] = kind == 1 ? 1.0 : 3 * vg_val(1510 + fam, i, 0);
   double x0[DMAX], stp[DMAX];
